@@ -117,10 +117,7 @@ func runObserved(cs c33Case, envKind string, mask int) fingerprint {
 
 	var fp fingerprint
 	ch.Driver.TickLater()
-	fp.Panic = env.Run(200000)
-	if i := strings.Index(fp.Panic, " @ "); i > 0 {
-		fp.Panic = fp.Panic[:i]
-	}
+	fp.Panic = runBounded(env)
 
 	st := ch.Driver.State
 	fp.Done = ch.Driver.Done()
@@ -165,6 +162,23 @@ func runObserved(cs c33Case, envKind string, mask int) fingerprint {
 		c33Stats.engineHookCalls += int64(eh.before + eh.after)
 	}
 	return fp
+}
+
+// simHorizon bounds a run in simulated time (the scripts finish within a
+// fraction of a microsecond; the largest final time seen is recorded as
+// max_final_time_ps). No engine hook is used as a guard: the engine must be really
+// unhooked in the runs that do not ask for an engine hook.
+const simHorizon = 10_000_000 // ps = 10 us
+
+func runBounded(env *simx.Env) string {
+	msg, _ := lib.CatchStack(func() { _ = env.Eng.RunUntil(simHorizon) })
+	if msg != "" {
+		return msg
+	}
+	if env.Eng.CurrentTime() >= simHorizon/2 {
+		return fmt.Sprintf("HORIZON: still running after %d ps of simulated time", uint64(env.Eng.CurrentTime()))
+	}
+	return ""
 }
 
 // diffFingerprints names the clauses on which b differs from a.
@@ -235,10 +249,16 @@ func runC33(cs c33Case) (string, []lib.Problem) {
 		}
 	}
 	runs := 1
+	if c33Ctx != nil {
+		c33Ctx.Max("max_final_time_ps", int64(bare.FinalTime))
+	}
 	if !cs.Full {
 		for _, m := range lightSubsets() {
 			report(obsLabel(m), diffFingerprints(bare, runObserved(cs, "light", m)))
 			runs++
+			if len(probs) > 0 {
+				break // subsets come smallest first: this is a minimal observer set that changes the outcome
+			}
 		}
 	} else {
 		// inside a real simulation.Simulation: it attaches the DB tracer to every
@@ -289,8 +309,12 @@ func c33Configs(c *lib.Ctx) []simx.ChainCfg {
 				if nm == 2 && len(st) > 0 && st[len(st)-1] == "rob" {
 					continue
 				}
-				for _, v := range variants {
+				for vi, v := range variants {
 					for _, eager := range []bool{false, true} {
+						// quick: the tight setting issues serially, the roomy one eagerly
+						if !c.Thorough() && eager != (vi == 1) {
+							continue
+						}
 						out = append(out, simx.ChainCfg{Stages: st, Memory: m, NumMem: nm, PortBuf: v.buf, Lat: v.lat, MSHR: v.mshr, Eager: eager})
 					}
 				}
@@ -312,16 +336,22 @@ func enumC33(c *lib.Ctx, yield func(c33Case) bool) {
 	lines := simx.SameSetLines(3)
 	alpha2 := opAlphabet(lines[:2])
 	alpha3 := opAlphabet(lines[:3])
+	var alphaK3 []simx.MemOp // read4, read line, write line, write4@8, masked write on 2 lines
+	for i, op := range alpha2 {
+		if k := i % 7; k != 1 && k != 4 {
+			alphaK3 = append(alphaK3, op)
+		}
+	}
 	for _, cfg := range c33Configs(c) {
 		y := func(ops []simx.MemOp) bool { return yield(c33Case{Cfg: cfg, Ops: ops}) }
 		// k = 2 on every assembly
 		if !enumScripts(lib.Pick(c, alpha2, alpha3), 2, y) {
 			return
 		}
-		// k = 3 (enough to overflow two ways with three lines) on a few cache-bearing assemblies
+		// k = 3 on a few cache-bearing assemblies (quick: 5 operations per line)
 		if hasCache(cfg) && cfg.Memory == "ideal" && cfg.NumMem == 1 && cfg.Lat == 1 && cfg.Eager &&
-			(c.Thorough() || len(cfg.Stages) == 1 && (cfg.Stages[0] == "wb" || cfg.Stages[0] == "wt-through") || len(cfg.Stages) == 2 && cfg.Stages[0] == "wb") {
-			if !enumScripts(lib.Pick(c, alpha2, alpha3), 3, y) {
+			(c.Thorough() || len(cfg.Stages) == 1 && cfg.Stages[0] == "wb" || len(cfg.Stages) == 2 && cfg.Stages[0] == "wt-through") {
+			if !enumScripts(lib.Pick(c, alphaK3, alpha2), 3, y) {
 				return
 			}
 		}
@@ -351,13 +381,13 @@ func init() {
 	lib.Register(&lib.Check{
 		ID:    "C33",
 		Level: "exploration",
-		Rule: "differential small-scope simulation on the real components: assemblies = 12 stage stacks {none, rob, wb, wt-around/evict/through, wt-*>wb, rob>wb, rob>wt-through>wb, wb>wb} x memories {ideal, banked2 [thorough +banked1]} x {1, 2 interleaved controllers} x 2 [3] (port buffer, latency, MSHR) settings x {serial, eager} issue, plus 5 DRAM presets x {none, wb}; scripts = every sequence of k=2 operations over {read4@0, read4@8, read line, write line, write4@0, write4@8, masked line write} x 2 [3] same-set lines on every assembly, and k=3 on the eager wb, wt-through and wb>wb assemblies over ideal memory [thorough: on every cache-bearing one]. " +
+		Rule: "differential small-scope simulation on the real components: assemblies = 12 stage stacks {none, rob, wb, wt-around/evict/through, wt-*>wb, rob>wb, rob>wt-through>wb, wb>wb} x memories {ideal, banked2 [thorough +banked1]} x {1, 2 interleaved controllers} x (port buffer, latency, MSHR, issue) settings {(1,0,1,serial), (4,1,2,eager)} [thorough: 3 settings x {serial, eager}], plus 5 DRAM presets x {none, wb}; scripts = every sequence of k=2 operations over {read4@0, read4@8, read line, write line, write4@0, write4@8, masked line write} x 2 [3] same-set lines on every assembly, and k=3 (5 of the 7 operations x 2 lines) on the eager wb and wt-through>wb assemblies over ideal memory [thorough: all 7 operations, every eager cache-bearing assembly over one ideal memory]. " +
 			"Each (assembly, script) is run bare and under EVERY non-empty subset of {recording tracer on every component, incoming+outgoing buffer tracing on every port, engine Before/AfterEvent hook, counting hook on every port, counting hook on every queueing.Buffer reachable in component state} (31 subsets); on 3 [7] assemblies x k=2 over 2 lines also inside a real simulation.Simulation with its DB tracer idle and recording from the start, alone and together with the other observers. " +
 			"Oracle: the fingerprint (per response in arrival order: op, kind, data bytes, simulated completion time; number of responses; final bytes of every backing storage over the touched range; final simulated time; run failure text) equals that of the bare run; generated IDs are not compared. A case = (assembly, script); observed_runs counts the runs.",
 		Sharded:     true,
 		MinOutcomes: 20,
 		Assumptions: []string{
-			"the bare run is the light environment (no simulation.Simulation); the scripted requester never has two in-flight requests touching the same byte",
+			"the bare run is the light environment (no simulation.Simulation, no hook of any kind: runs are bounded by RunUntil(10 us simulated), not by an engine hook); the scripted requester never has two in-flight requests touching the same byte",
 			"final storage is compared over [0, end of the highest touched line) of every backing storage",
 			"inside a simulation.Simulation, buffer tracing is the one the simulation attaches itself (attaching a second copy is not a supported configuration)",
 		},
